@@ -1,8 +1,74 @@
-(* C11 (PARTIAL): relocation of a parsed URI shifts every present component by exactly the
-   same amount (and is exact inside the 16-bit range).  Offset invariance of the parsers is
-   checked by the correspondence run and the shift oracle only. *)
-From Sipsp Require Import Harness URIViews.
-Theorem C11_relocation_shifts_every_component_partial : forall u np u', uri_adjust u np = (true, u') ->
+(* C11: results are invariant under where in the buffer the text starts.
+   PROVED for the models of ParseCallIDVal, ParseUIntVal / ParseExpiresVal, ParseCLenVal,
+   ParseCSeqVal and ParseFLine (Shift.v): for every buffer, every start offset inside it, every
+   sequence of junk bytes put in front, valid input or not - the call on the longer buffer, started
+   |junk| further on with a fresh object, returns the same verdict, the returned offset moved by
+   |junk|, every numeric / type value unchanged, every reported field moved by exactly |junk| and
+   every field that was not set still unset.  The relation R* says, state by state, which fields
+   are live; `res_shift` is: same kind of result, offset + |junk|, same verdict, states related.
+   (Offsets are in N: the 65,535 limit is not part of the statement.)  The rule behind it,
+   `C11_shift_rule`, is parser independent.
+   Relocation of a parsed URI: every present component moves by the same amount, exact inside 16 bits.
+   PARTIAL: not proved for the name-addr automaton, the parameter parsers, the lists, the header
+   line / block and the message: shift oracle (junk prefixes, k up to 65535 - len) and the
+   correspondence at offsets 0 and k. *)
+From Sipsp Require Import Harness URIViews Shift.
+
+Theorem C11_shift_rule : forall (S : Type) (iter : list byte -> list byte -> N -> S -> ires S) (J : list byte) (R : S -> S -> Prop),
+  (forall pre rest i s s', i = nnat (length pre) -> R s s' ->
+     ires_shift J R (iter pre rest i s) (iter (pre ++ J) rest (i + nnat (length J)) s')) ->
+  forall junk buf offs s s', J = rev junk -> offs <= nnat (length buf) -> R s s' ->
+    res_shift J R (parse iter buf offs s) (parse iter (junk ++ buf) (offs + nnat (length J)) s').
+Proof. exact (fun S iter J R H junk buf offs s s' => parse_shift iter J R H junk buf offs s s'). Qed.
+
+Theorem C11_callid : forall junk buf offs, offs <= nnat (length buf) ->
+  res_shift (rev junk) (Rci (nnat (length junk))) (parse_callid buf offs callid0) (parse_callid (junk ++ buf) (offs + nnat (length junk)) callid0).
+Proof. exact callid_shift. Qed.
+Theorem C11_uint_expires : forall junk buf offs, offs <= nnat (length buf) ->
+  res_shift (rev junk) (Rui (nnat (length junk))) (parse_uint buf offs uintb0) (parse_uint (junk ++ buf) (offs + nnat (length junk)) uintb0).
+Proof. exact uint_shift. Qed.
+Theorem C11_content_length : forall junk buf offs, offs <= nnat (length buf) ->
+  res_shift (rev junk) (Rui (nnat (length junk))) (parse_clen buf offs uintb0) (parse_clen (junk ++ buf) (offs + nnat (length junk)) uintb0).
+Proof. exact clen_shift. Qed.
+Theorem C11_cseq : forall junk buf offs, offs <= nnat (length buf) ->
+  res_shift (rev junk) (Rcs (nnat (length junk))) (parse_cseq buf offs cseq0) (parse_cseq (junk ++ buf) (offs + nnat (length junk)) cseq0).
+Proof. exact cseq_shift. Qed.
+Theorem C11_first_line : forall junk buf offs, offs <= nnat (length buf) ->
+  res_shift (rev junk) (Rfl (nnat (length junk))) (parse_fline buf offs fline0) (parse_fline (junk ++ buf) (offs + nnat (length junk)) fline0).
+Proof. exact fline_shift. Qed.
+
+(* spelled out for a successfully parsed Call-ID and CSeq: what "related" means at the end *)
+Theorem C11_callid_success : forall junk buf offs o s, offs <= nnat (length buf) ->
+  parse_callid buf offs callid0 = Done o EOk s -> ci_state s = CiFIN ->
+  exists s', parse_callid (junk ++ buf) (offs + nnat (length junk)) callid0 = Done (o + nnat (length junk)) EOk s' /\
+             ci_state s' = CiFIN /\ ci_callid s' = shf (nnat (length junk)) (ci_callid s).
+Proof.
+  intros junk buf offs o s Ho E Hs. pose proof (callid_shift junk buf offs Ho) as H. rewrite E in H.
+  destruct (parse_callid (junk ++ buf) _ callid0) as [o' e' s'| |]; try contradiction.
+  destruct H as (Eo & <- & Est & HR). rewrite rev_length in Eo. subst o'. rewrite Hs in HR. destruct HR as [Hc _].
+  exists s'. split; [reflexivity|]. split; [congruence|exact Hc].
+Qed.
+Theorem C11_cseq_success : forall junk buf offs o s, offs <= nnat (length buf) ->
+  parse_cseq buf offs cseq0 = Done o EOk s -> cs_state s = CsFIN ->
+  exists s', parse_cseq (junk ++ buf) (offs + nnat (length junk)) cseq0 = Done (o + nnat (length junk)) EOk s' /\
+             cs_no s' = cs_no s /\ cs_methodno s' = cs_methodno s /\
+             cs_cseq s' = shf (nnat (length junk)) (cs_cseq s) /\ cs_method s' = shf (nnat (length junk)) (cs_method s) /\
+             cs_v s' = shf (nnat (length junk)) (cs_v s).
+Proof.
+  intros junk buf offs o s Ho E Hs. pose proof (cseq_shift junk buf offs Ho) as H. rewrite E in H.
+  destruct (parse_cseq (junk ++ buf) _ cseq0) as [o' e' s'| |]; try contradiction.
+  destruct H as (Eo & <- & Est & Hn & Hm & HR). rewrite rev_length in Eo. subst o'. rewrite Hs in HR. destruct HR as (Hc & Hme & Hv).
+  exists s'. auto 10.
+Qed.
+
+(* non-vacuity: "CSeq: 42 INVITE" after two junk bytes *)
+Example C11_example :
+  parse_cseq [32;52;50;32;73;78;86;73;84;69;13;10;13;10] 0 cseq0 = Done 12 EOk (mkcseq 42 (get_method_no [73;78;86;73;84;69]) (mkpf 1 2) (mkpf 4 6) (mkpf 1 9) CsFIN 0) /\
+  parse_cseq ([120;121] ++ [32;52;50;32;73;78;86;73;84;69;13;10;13;10]) 2 cseq0 = Done 14 EOk (mkcseq 42 (get_method_no [73;78;86;73;84;69]) (mkpf 3 2) (mkpf 6 6) (mkpf 3 9) CsFIN 0).
+Proof. split; vm_compute; reflexivity. Qed.
+
+(* relocation of a parsed URI *)
+Theorem C11_relocation_shifts_every_component : forall u np u', uri_adjust u np = (true, u') ->
   u_type u' = u_type u /\ u_portno u' = u_portno u /\
   u_scheme u' = mkpf (po np) (pl (u_scheme u)) /\
   Forall2 (moved (po (u_scheme u)) (po np)) (uri_fields u) (uri_fields u').
@@ -11,3 +77,5 @@ Theorem C11_shift_is_exact_inside_16_bits : forall start offs f f',
   moved start offs f f' -> po f <> 0 -> start <= po f -> po f - start + offs <= 65535 ->
   po f' = po f - start + offs /\ pl f' = pl f.
 Proof. exact adjust_exact. Qed.
+Print Assumptions C11_first_line.
+Print Assumptions C11_cseq.
